@@ -13,7 +13,7 @@ from .tlc import SPECS
 OBLIGATIONS = [
     ("base: Init => IndInv", ["--init=Init", "--inv=IndInv", "--length=0"]),
     ("step: IndInv /\\ Next => IndInv'", ["--init=IndInvInit", "--inv=IndInv", "--length=1"]),
-    ("IndInv => Safety (BudgetRespected, IterBounded, MeshLeOne, SearchMeshLeqPoll)",
+    ("IndInv => Safety (BudgetRespected incl. the noisy reserve, IterBounded, MeshLeOne, SearchMeshLeqPoll, FinalSamplesTaken)",
      ["--init=IndInvInit", "--inv=Safety", "--length=0"]),
 ]
 
